@@ -119,7 +119,7 @@ let do_history (line : string) : string =
         if s = "CRASH" then [s] else s :: go r in
   let es = all_exprs ops in
   String.concat " || " (go obs) ^ "\tG=" ^
-  flags [ (history_stale_map libm_un libm_bin ops, "stalemap");
+  flags [ (history_stale_map libm_un libm_bin ops, "stalemap"); (g_cse_shadow ops, "cseshadow");
           (List.exists g_mul_E es, "mulE"); (List.exists g_pw_open es, "pwopen") ]
 
 let () =
